@@ -24,7 +24,7 @@ type C03Case struct {
 
 func genC03(g gen.G) C03Case {
 	o := gen.WorldOpts{
-		Schema:   gen.SchemaOpts{MaxDepth: 2, Wide: true, AddrPct: 60},
+		Schema:   gen.SchemaOpts{MaxDepth: 2, Wide: true, AddrPct: 60, DepBoost: g.Chance(40)},
 		Cfg:      gen.CfgOpts{Violations: 8, Layout: false},
 		MaxPaths: 2, MaxFiles: 3, Edits: 1,
 	}
@@ -153,12 +153,18 @@ func checkC03(c C03Case) Result {
 			maxSize = n
 		}
 	}
-	compare := func(stage string, w *world.World, reps int) {
+	compare := func(stage string, w *world.World, reps int, order ...int) {
 		d := d1
 		if w != w1 {
 			d = w.Decoder()
 		}
-		for i, q := range c.Queries {
+		if len(order) == 0 {
+			for i := range c.Queries {
+				order = append(order, i)
+			}
+		}
+		for _, i := range order {
+			q := c.Queries[i]
 			for k := 0; k < reps; k++ {
 				got, _ := NormResult(Exec(w, d, q))
 				evals++
@@ -184,7 +190,35 @@ func checkC03(c C03Case) Result {
 			r.Exclude("library-panic(C01)")
 			return r
 		}
-		compare("fresh-decoder", w2, 1)
+		// (in reverse, rotated and original order: the answer may not depend on what was asked before)
+		n := len(c.Queries)
+		order := make([]int, n)
+		for i := range order {
+			switch k {
+			case 0:
+				order[i] = n - 1 - i
+			case 1:
+				order[i] = (i + n/2) % n
+			default:
+				order[i] = i
+			}
+		}
+		compare("fresh-decoder", w2, 1, order...)
+	}
+	// 4. as the very first operation on a pristine world (schema never used before, not
+	// even by the collectors), given the same collected targets and origins
+	for i := 0; i < len(c.Queries) && i < 40 && len(r.Failures) == 0; i++ {
+		w3, pi := SafeBuild3(c.World, w1)
+		if pi != nil {
+			r.Exclude("library-panic(C01)")
+			return r
+		}
+		got, _ := NormResult(Exec(w3, w3.Decoder(), c.Queries[i]))
+		evals++
+		if got != base[i] {
+			r.Fail("nondeterministic:"+c.Queries[i].Kind+":pristine-world", "result of %s as the first operation on a freshly built world differs from the evaluation after other queries\n used:     %s\n pristine: %s",
+				c.Queries[i], around(base[i], got), around(got, base[i]))
+		}
 	}
 	r.Evals = evals
 	r.NonTrivial = maxSize >= 2
@@ -199,7 +233,26 @@ func checkC03(c C03Case) Result {
 	if len(c.History) > 0 {
 		r.Class("with-history")
 	}
+	depClasses(&r, c.World, w1)
 	return r
+}
+
+// SafeBuild3 builds the world without running anything on it and hands it the
+// targets and origins collected in `from`.
+func SafeBuild3(wm m.WorldM, from *world.World) (w *world.World, pi *PanicInfo) {
+	defer func() {
+		if p := recover(); p != nil {
+			pi = &PanicInfo{Value: fmt.Sprint(p), Sig: "panic:build"}
+		}
+	}()
+	w = world.Build(wm)
+	for _, p := range wm.Paths {
+		src, dst := from.Reader.Ctx(p.Path), w.Reader.Ctx(p.Path)
+		if src != nil && dst != nil {
+			dst.ReferenceTargets, dst.ReferenceOrigins = src.ReferenceTargets, src.ReferenceOrigins
+		}
+	}
+	return w, nil
 }
 
 func clip(s string, n int) string {
